@@ -42,9 +42,15 @@ impl RequestHandler<Completion> for CompletionHandler {
                 {
                     line = source_file.file.source_line(source_line);
 
-                    // Only look at the line until the source_column
-                    if source_column <= line.len() && source_column > 0 {
-                        let (line, suffix) = line.split_at(source_column - 1);
+                    // Only look at the line until the source_column. Columns count characters, split_at needs a byte index.
+                    let split_idx = source_column.checked_sub(1).and_then(|col| {
+                        line.char_indices()
+                            .map(|(idx, _)| idx)
+                            .chain(std::iter::once(line.len()))
+                            .nth(col)
+                    });
+                    if let Some(split_idx) = split_idx {
+                        let (line, suffix) = line.split_at(split_idx);
 
                         // Are we autocompleting a dot?
                         if suffix.starts_with('.') {
